@@ -3,6 +3,7 @@ package verifsrv
 import (
 	"encoding/json"
 	"fmt"
+	"net/http"
 	"strings"
 	"sync"
 	"testing"
@@ -122,6 +123,17 @@ func c14MaxConns(limit, n int) (string, string, bool) {
 	var mu sync.Mutex
 	var cls []*client
 	refused := 0
+	// requests that pass every admission test but fail the websocket handshake (plain HTTP GET)
+	// must not disturb the accounting of the connection limit
+	first, _, err := srv.dial(si.Code, "first", "receiver")
+	if err == nil {
+		cls = append(cls, first)
+		for k := 0; k < 3; k++ {
+			if resp, err := http.Get(fmt.Sprintf("%s/ws?join_code=%s&peer_id=plain%d&role=receiver", srv.base, si.Code, k)); err == nil {
+				resp.Body.Close()
+			}
+		}
+	}
 	burst(n, func(i int) {
 		c, st, err := srv.dial(si.Code, fmt.Sprintf("r%d", i), "receiver")
 		mu.Lock()
